@@ -20,6 +20,9 @@ def gen_tree(rng, words, outer=False, bos=False):
     nitems = 0
     while i < n:
         remaining = n - i
+        if rng.chance(1, 12):
+            toks += ["(", ")"] if rng.chance(2, 3) else ["(", "^", ")"]      # an empty non-terminal (epsilon rule): must change nothing
+            nitems += 1
         if remaining == 1 or rng.chance(1, 2) or (nitems == 0 and remaining == n and n == 1):
             if n == 1 and not outer and nitems == 0:
                 toks.append("%x" % words[i])
@@ -88,13 +91,22 @@ def run(ctx):
     for mi in range(nmodels):
         # every few models a large one: pointer compression (ArrayBhiksha chopping) only matters beyond ~64 entries per order, and only
         # ExtendLeft / UnRest (chart scoring) read entries back through BitPackedMiddle::ReadEntry (third-round seeded change C08-7)
-        m = ctx.replay_model or lc.gen_model(rng, max_order=ctx.pick(5, 6), max_vocab=ctx.pick(8, 30), estimator_like=True, big=(mi % 6 == 2), hub=(mi % 12 == 7))
+        m = ctx.replay_model or lc.gen_model(rng, max_order=6, max_vocab=ctx.pick(12, 30), estimator_like=True, big=(mi % 6 == 2), hub=(mi % 12 == 7), full_order=(mi % 4 == 1))
         sess = lc.Session(ctx, m, "m%d" % mi)
-        sents = [s for _, s in lc.gen_queries(rng, m, ctx.pick(12, 40))]
+        sents = [s for _, s in lc.gen_queries(rng, m, ctx.pick(12, 40))] + [list(s) for s in getattr(m, "special", [])]
         cases = []
         ro = ctx.replay_obj if ctx.replaying else {}
         if "tree" in ro and "sentence" in ro:
             cases.append((list(ro["sentence"]), bool(ro.get("bos")), ro["tree"].split()))
+        # the special sequences of the generator (partial shrink of the usable context; fragments with order-1 left pointers): as one
+        # sub-derivation with the sentence start or some other word revealed in front, plus the usual random / exhaustive bracketings
+        for sp in getattr(m, "special", []):
+            ws = ["%x" % w for w in sp]
+            cases.append((list(sp), True, ["(", "B", "("] + ws + [")", ")"]))
+            z = rng.range(3, len(m.vocab) - 1)
+            cases.append(([z] + list(sp), False, ["(", "%x" % z, "("] + ws + [")", ")"]))
+            if len(sp) >= 3:
+                cases.append((list(sp), True, ["(", "B", "(", "(", "("] + ws[:2] + [")", "("] + ws[2:3] + [")", ")"] + ws[3:] + [")", ")"]))
         for s in sents:
             s = s[:9]
             if not s:
